@@ -103,7 +103,7 @@ def w_empty(job):
             for meas, t in (('JACCARD', 0.5), ('COSINE', 0.1), ('DICE', 1.0), ('OVERLAP', 1)):
                 for ae in (True, False):
                     want = ae and meas != 'OVERLAP'
-                    f = make_filter(name, make_tokenizer(sspec), meas, t, ae, False)
+                    f = make_filter(name, make_tokenizer(sspec), meas if ae else meas.lower(), t, ae, False)
                     for nj in job['n_jobs'][:2]:
                         cases += 1
                         calls += 1
